@@ -71,6 +71,7 @@ MACHINES = {
     # name: (root module, INIT, NEXT, invariants, emission lines of the cfg)
     "view": ("ViewEmit", "Init", "Next", INVARIANTS, "CONSTRAINT EmitDecode\nACTION_CONSTRAINT EmitEncode\n"),
     "cursor": ("Cursor", "CInit", "CNext", ["CTypeOK", "TableLaws", "LevelWalk"], "ACTION_CONSTRAINT EmitCursorAndStop\n"),
+    "visit": ("Visit", "VInit", "VNext", ["VisitOrderComplete", "VisitLandsAtEnd"], "ACTION_CONSTRAINT EmitVisitAndStop\n"),
 }
 
 
@@ -90,7 +91,7 @@ def run_schema(S, tier, seed, configs, wd, extra_cfg="", machine="view", shapes_
     vlib.write(disp, viewgen.dispatch_cpp(S))
     stla = viewgen.schema_tla(S)
     root, init, nxt, invs, emit_cfg = MACHINES[machine]
-    k = shapes_k or {"view": (10, 48), "cursor": (3, 12)}[machine][0 if tier == "quick" else 1]
+    k = shapes_k or {"view": (10, 48), "cursor": (3, 12), "visit": (6, 30)}[machine][0 if tier == "quick" else 1]
 
     def tlc_msg(mi):
         m = S["messages"][mi - 1]
@@ -116,7 +117,7 @@ def run_schema(S, tier, seed, configs, wd, extra_cfg="", machine="view", shapes_
     vec = os.path.join(sdir, "vectors-%s.ndjson" % machine)
     write_ndjson(vec, vectors)
     res["vectors"] = len(vectors)
-    for kind in ("decode", "encode", "cursor"):
+    for kind in ("decode", "encode", "cursor", "visit"):
         for x in vectors:
             if x["kind"] == kind:
                 s = dict(x)
@@ -173,6 +174,10 @@ def view_results(tier, seed):
 
 def cursor_results(tier, seed):
     return run_catalogue("cursor", catalogue.view_schemas(), tier, seed, machine="cursor")
+
+
+def visit_results(tier, seed):
+    return run_catalogue("visit", catalogue.view_schemas(), tier, seed, machine="visit")
 
 
 def header_results(tier, seed):
